@@ -1,5 +1,5 @@
 ENGINES = [
-    {"name": "pyvc", "path": "/verif/pyvc", "serves_properties": ["C01", "C02", "C04", "C05", "C09"],
+    {"name": "pyvc", "path": "/verif/pyvc", "serves_properties": ["C01", "C02", "C04", "C05", "C08", "C09"],
      "kind_free_text": "own verification-condition generator: symbolic execution of the AST of the real functions (re-read from /repo on every run) against sidecar contracts, discharged with z3; bounded run-time contract checking of the real functions as labelled stand-in"},
 ]
 NOTES = ("Contract-based deductive verification with an own VC generator (PyVC) over the real source; see DESIGN.md. "
@@ -30,5 +30,10 @@ CHECKS.append(
      "text": "for every expression dataclass and the fixture hierarchies (decorated, undecorated-legacy, mixed) the generated __eq__/__hash__/state methods (text captured from _MODULE_SOURCE_CODE and byte-code-compared with the running functions) and the legacy Expression back end are proved: eq <=> same class and field-wise ==, fresh hash cached and nothing else assigned, SpecEq => equal hashes, cached hash returned unchanged, state = exactly the fields without the cached hash; __post_init__ contracts; decorator configuration (frozen=__debug__, eq=False); frame scan of all attribute writes that can reach an existing expression; bounded pairs/triples/histories as cross-check",
      "note": "A-EQ (== on field values is an equivalence compatible with hash; tuple hash is a function of element hashes) is assumed, dataclasses' frozen semantics trusted; transitivity/symmetry of == follow field-wise from A-EQ (lemma not machine-checked beyond the bounded triples); Polynomial/Rational unhashable is known finding C01-legacy-builtins-unhashable",
      "technique": "deductive: VCs from the generated method text per class vs. field-wise specification, relational hash-consistency obligation, z3; syntactic frame scan; bounded pair/history enumeration"})
+CHECKS.append(
+    {"id": "C08", "category": "proof",
+     "text": "the closure of make_subst_func proved to be the statement's look-up rule (node key, then Variable name, else None); SubstitutionMapper.map_variable/map_subscript/map_lookup proved to return sigma(node) itself when not None (no re-substitution) and otherwise the identity image; every inherited map_<K> proved against the identity contract (same extra arguments, same object when unchanged); the semantic commutation with evaluation is validated exhaustively on depth<=2 trees x 16 substitution maps x environment box against den_sigma (the substitution lemma over den is not machine-proved)",
+     "note": "sigma uninterpreted and pure; M-IND; C04/C05 contracts; the lemma den(Subst(e,s),env) = den_s(e,env) and substitute()'s dict handling are bounded only",
+     "technique": "deductive: per-method VCs (interception + identity contract), refinement of the real closure, z3; exhaustive bounded differential evaluation for the semantic lemma"})
 _PENDING = "check not built yet in this session (planned per DESIGN.md section 5); not claimed until its check exists"
 NOT_APPLICABLE = [{"property_id": f"C{i:02d}", "reason": _PENDING} for i in range(1, 21) if f"C{i:02d}" not in {c["id"] for c in CHECKS}]
